@@ -64,6 +64,16 @@ TC(d, rec, stop) == [d |-> d, rec |-> rec, stop |-> stop]
 TimerCfgsAll == {TC(1, FALSE, 0), TC(2, TRUE, 0), TC(1, TRUE, 2), TC(0, FALSE, 0)}
 NoTimers == {}
 ProgsT == {<<>>, <<Resched>>, <<SleepN(1)>>, <<SleepN(2), Resched>>}
+\* task priorities below 1 (Scheduler.cycle's head selection): small programs, 2 and 3 tasks
+ProgsP2 == SeqsUpTo({Resched, SleepN(1), Block}, 2) \cup {<<Raise>>, <<Call(<<SleepOp(1)>>, "ret")>>}
+ProgsP3 == SeqsUpTo({Resched, SleepN(1), Block}, 1) \cup {<<Resched, Resched>>}
+ProgsP2q == SeqsUpTo({Resched, SleepN(1), Block}, 1) \cup {<<Resched, Resched>>, <<Resched, SleepN(1)>>, <<Raise>>,
+                                                            <<Call(<<SleepOp(1)>>, "ret")>>}
+ProgsP3q == {<<>>, <<Resched>>, <<Block>>, <<Resched, Resched>>}
+Lo1 == {1}
+Lo12 == {1, 2}
+Lo13 == {1, 3}
+Lo123 == {1, 2, 3}
 FdsA == {"a"}
 NoFds == {}
 NowBound == now <= MaxNow + 6
